@@ -58,7 +58,7 @@ def strategy(tier):
   )
   return st.fixed_dictionaries({
       'resolution': st.sampled_from(sorted(MODES)),
-      'ops': st.lists(op, max_size=50),
+      'ops': st.lists(op, max_size=50 if tier == 'quick' else 150),
   })
 
 
